@@ -1092,3 +1092,18 @@ add("C18", "benign: emptiness of the new mapping tested against a literal", SCHE
 add("C18", "benign: order-sensitive comparison of the column lists", SCHEMA,
     "        if schema and not normalized_column_mapping:\n",
     "        if schema and (not normalized_column_mapping or (list(schema.items()) == list(normalized_column_mapping.items()) and False)):\n", "silent", 0)
+
+# ------------------------------------------------------------------------------- C20.j
+_C20J_OLD = ("            source_mapping = compute_node_mappings(source_nodes, tuple(source_copy.walk()))\n"
+             "            target_mapping = compute_node_mappings(target_nodes, tuple(target_copy.walk()))\n"
+             "            matchings = [(source_mapping[id(s)], target_mapping[id(t)]) for s, t in matchings]\n")
+add("C20", "caller matchings re-mapped through one merged id -> copy table", DIFF, _C20J_OLD,
+    "            node_mapping = {\n                **compute_node_mappings(source_nodes, tuple(source_copy.walk())),\n                **compute_node_mappings(target_nodes, tuple(target_copy.walk())),\n            }\n"
+    "            matchings = [(node_mapping[id(s)], node_mapping[id(t)]) for s, t in matchings]\n", "C20.j")
+add("C20", "target side of a caller matching looked up in the source's table", DIFF, _C20J_OLD,
+    "            source_mapping = compute_node_mappings(source_nodes, tuple(source_copy.walk()))\n"
+    "            target_mapping = compute_node_mappings(target_nodes, tuple(target_copy.walk()))\n"
+    "            matchings = [(source_mapping[id(s)], source_mapping[id(t)]) for s, t in matchings]\n", "C20.j")
+add("C20", "benign: per-side tables renamed and inlined", DIFF, _C20J_OLD,
+    "            src_map = compute_node_mappings(source_nodes, tuple(source_copy.walk()))\n"
+    "            matchings = [\n                (src_map[id(a)], compute_node_mappings(target_nodes, tuple(target_copy.walk()))[id(b)])\n                for a, b in matchings\n            ]\n", "silent", 0)
